@@ -201,6 +201,12 @@ def gen_file(rng, nested=False, features=None):
                     pg['stats'] = (min(pv), max(pv), len(pd) - k)   # byte-wise min/max: content is not asserted by C06
                     pg['stats_mode'] = rng.choice(['new', 'deprecated', 'both'])
                 pages.append(pg)
+            if feat.get('empty_pages', rng.random() < 0.12) and not feat.get('unsupported'):
+                # a data page holding no value at all is legal (writers emit one when a flush happens between rows); first, in the middle or last
+                ep = {'defs': [], 'reps': [], 'values': [], 'encoding': 'DICT' if (use_dict and dictionary and enc_plan == 'all') else 'PLAIN'}
+                if ep['encoding'] == 'DICT':
+                    ep['indices'] = []; ep['index_width'] = max(1, (len(dictionary) - 1).bit_length())
+                pages.insert(rng.choice([0, len(pages), rng.randrange(len(pages) + 1)]), ep)
             cs = {'pages': pages, 'dictionary': dictionary}
             if vals and rng.random() < 0.5:
                 cs['stats'] = (min(vals) if lf.ptype != P.BOOLEAN else bytes([min(vals)]), max(vals) if lf.ptype != P.BOOLEAN else bytes([max(vals)]), len(defs) - nn)
@@ -209,7 +215,7 @@ def gen_file(rng, nested=False, features=None):
     data, leaves, model, info = P.write_file(elems, groups, opt)
     feat_out = {'codec': codec, 'nested': nested, 'level_style': opt.level_style, 'index_style': opt.index_style, 'unknown_fields': opt.unknown_fields, 'long_fields': opt.long_fields,
                 'crc': opt.crc, 'stats': opt.stats, 'dict_chunks': info['dict_chunks'], 'pages': info['pages'], 'max_depth': max((len(l.path) for l in leaves), default=0),
-                'types': sorted(set(l.ptype for l in leaves)), 'dict_offset_present': opt.dict_offset_present}
+                'types': sorted(set(l.ptype for l in leaves)), 'dict_offset_present': opt.dict_offset_present, 'empty_pages': any(not pg['defs'] and not pg['values'] and nrec for g in groups for cs2 in g['columns'] for pg in cs2['pages'])}
     return data, leaves, model, info, feat_out
 
 
